@@ -218,6 +218,7 @@ type Engine struct {
 	UFStubs map[string]bool // function full names to replace by uninterpreted functions
 	journal []jent
 	KnownOpen map[string]bool
+	Redirect  map[string]string
 }
 
 type Options struct {
@@ -248,7 +249,7 @@ func NewEngine(p *Program, o Options) (*Engine, error) {
 	}
 	e := &Engine{P: p, C: smt.NewCtx(), lay: newLayout(p.IntW), opts: o,
 		glob: map[*ssa.Global]*Object{}, inited: map[*ssa.Package]bool{},
-		noMerge: map[ssa.Instruction]bool{}, qcache: map[[2]int]smt.Verdict{}, funcs: map[string]bool{}, stubs: map[string]bool{}, UFStubs: map[string]bool{}}
+		noMerge: map[ssa.Instruction]bool{}, qcache: map[[2]int]smt.Verdict{}, funcs: map[string]bool{}, stubs: map[string]bool{}, UFStubs: map[string]bool{}, Redirect: map[string]string{}}
 	s, err := smt.NewSolver(e.C, o.Timeout, o.SolverArgv...)
 	if err != nil {
 		return nil, err
